@@ -5,7 +5,7 @@ Tally 'explain' command - Explain merchant classifications.
 import os
 import sys
 
-from ..cli import C, find_config_dir, _check_deprecated_description_cleaning, _print_deprecation_warnings
+from ..cli import C, find_config_dir, _check_deprecated_description_cleaning, _print_deprecation_warnings, _report_unloadable_rules
 from ..config_loader import load_config, load_supplemental_sources
 from ..merchant_utils import get_all_rules, get_transforms, explain_description
 from ..analyzer import parse_amex, parse_boa, parse_generic_csv
@@ -57,6 +57,7 @@ def cmd_explain(args):
     # Load merchant rules
     merchants_file = config.get('_merchants_file')
     if merchants_file and os.path.exists(merchants_file):
+        _report_unloadable_rules(merchants_file)
         rules = get_all_rules(merchants_file, match_mode=rule_mode)
     else:
         rules = get_all_rules(match_mode=rule_mode)
